@@ -245,3 +245,116 @@ def check_lookup(prog, res, rule, fn, table, key_idx, n_fields):
     res.oblige(True, "table-lookup")
     res.hit(rule)
     return True
+
+
+_ICO = {}
+
+
+def conversion_outputs(prog, fn_path, lo, hi):
+    """{input value: canonical output} of a small integer -> id conversion over its accepted inputs: the Ok payload is
+    evaluated for every value of the finite domain (variant names, nested workspace conversions, polynomial payloads
+    with 0/1 comparison flags).  Returns (outputs, unknown) — `unknown` non-empty when some payload cannot be evaluated."""
+    key = (id(prog), fn_path, lo, hi)
+    if key in _ICO:
+        return _ICO[key]
+    _ICO[key] = ({}, [("recursive",)])
+    allowed, _, unk = int_conversion_ranges(prog, fn_path, lo, hi)
+    if unk:
+        _ICO[key] = ({}, unk)
+        return _ICO[key]
+    tabs, an, sy = accept.accept_tables(prog, fn_path)
+    from ..sym import forward_paths
+    unknown = []
+
+    def sym_value(name, v):
+        if name == "arg1":
+            return v
+        if name in sy.b2i:
+            op, pa, pb = sy.b2i[name]
+            a, b = poly_value(pa, v), poly_value(pb, v)
+            if a is None or b is None:
+                return None
+            return int({"Lt": a < b, "Le": a <= b, "Gt": a > b, "Ge": a >= b, "Eq": a == b, "Ne": a != b}[op])
+        return None
+
+    def poly_value(p, v):
+        env = {}
+        for s_ in p.syms():
+            x = sym_value(s_, v)
+            if x is None:
+                return None
+            env[s_] = x
+        return p.subs(env)
+
+    def holds(ats, v):
+        for a in ats:
+            if a[0] == "rel":
+                val = poly_value(a[2], v)
+                if val is None:
+                    return None
+                op = a[3]
+                if not ((op == ">=" and val >= 0) or (op == "==" and val == 0) or (op == "!=" and val != 0)):
+                    return False
+            elif a[0] == "ok" and len(a) > 2:
+                continue     # acceptance of nested conversions is part of `allowed`
+            elif a[0] == "false":
+                return False
+            else:
+                return None
+        return True
+
+    def ev(t, v, depth=0):
+        t = strip(t)
+        if depth > 6:
+            return None
+        if t[0] == "aggr" and t[1].startswith("adt:"):
+            args = [ev(x, v, depth + 1) for x in t[2]]
+            if any(x is None for x in args):
+                return None
+            return (t[1].split("::")[-1],) + tuple(args)
+        if t[0] == "try":
+            return ev(t[1], v, depth + 1)
+        if t[0] == "call" and len(t[2]) == 1:
+            callee = sy.call_sig(t)
+            if callee in prog.bodies:
+                ap = sy.poly(t[2][0])
+                pv = poly_value(ap, v) if ap is not None else None
+                if pv is None:
+                    return None
+                cb = prog.bodies[callee]
+                cty = cb.locals[1]["ty"] if cb.argc >= 1 else {}
+                if cty.get("k") == "int" and cty["w"] <= 16:
+                    clo, chi = (0, (1 << cty["w"]) - 1) if not cty["s"] else (-(1 << (cty["w"] - 1)), (1 << (cty["w"] - 1)) - 1)
+                    sub, sunk = conversion_outputs(prog, callee, clo, chi)
+                    if sunk or int(pv) not in sub:
+                        return None
+                    return ("conv", callee.split(" as ")[0].lstrip("<").split("::")[-1], sub[int(pv)])
+                return None
+        p = sy.poly(t)
+        if p is not None:
+            pv = poly_value(p, v)
+            return None if pv is None else int(pv)
+        return None
+    out = {}
+    sites = []
+    for bb, t in an.ok_sites():
+        for path in forward_paths(an, bb) or []:
+            sy.set_path(path[1])
+            ats = []
+            for (s_, t_) in path[0]:
+                ats += sy.atoms_of_edge(s_, t_)
+            sy.set_path(None)
+            sites.append((ats, t[2][0] if t[2] else None))
+    for v in sorted(allowed):
+        got = None
+        for ats, payload in sites:
+            h = holds(ats, v)
+            if h:
+                got = ev(payload, v) if payload is not None else None
+                if got is None:
+                    unknown.append(("payload", v))
+                break
+        if got is not None:
+            out[v] = got
+    _ICO[key] = (out, unknown[:5])
+    return _ICO[key]
